@@ -1485,7 +1485,9 @@ def c18_group(case):
     a = case["args"]
     try:
         lst, objs = _c18_build(a["lst"], a["container"])
-        attrs = [{"g1": "twp", "g2": "sec"}[x] for x in a["attrs"]]
+        numeric = bool(a.get("numeric"))
+        # (numeric: grouped by the numbers instead of the strings - township 0 and section 0 are values like any other)
+        attrs = [({"g1": "twp_num", "g2": "sec_num"} if numeric else {"g1": "twp", "g2": "sec"})[x] for x in a["attrs"]]
         arg = attrs if (len(attrs) > 1 or a.get("as_list")) else attrs[0]
         cls = type(lst)
         how = a.get("how", "method")
@@ -1528,6 +1530,11 @@ def c18_group(case):
                     walk(v, path + [k])
                 else:
                     key = list(k) if isinstance(k, tuple) else path + [k]
+                    if numeric:
+                        tabs = {"twp_num": {154: "x", 155: "y", 0: "v"}, "sec_num": {14: "p", 15: "q", 0: "t"}}
+                        groups.append({"key": [tabs[attrs[j]].get(x, "?" + str(x)) if j < len(attrs) else "?" for j, x in enumerate(key)],
+                                       "members": list(v)})
+                        continue
                     groups.append({"key": [val.get(x, "?" + str(x)) for x in key], "members": list(v)})
         walk(dct, [])
         unpacked = cls.unpack_group(dct)
